@@ -436,7 +436,8 @@ def run(ctx: core.Ctx):
     ctx.assumptions = ["ground truth before/after = raw DuckDB digest + session context + variables + open-transaction probe"]
     # in the minimal catalog DB2 and S2 do not exist, so "already exists" statements about them are not failing ones
     def applicable(st, s):
-        return not (st[0] == "full_min" and s[0] in ("exists_schema", "exists_database"))
+        # ... and the decoy statements are about a table missing in a schema / database that exists (S2, DB2.S1)
+        return not (st[0] == "full_min" and (s[0] in ("exists_schema", "exists_database") or s[0].endswith("_decoy")))
 
     items = [(st, [s]) for st in states for s in cat if applicable(st, s)]
     if not ctx.quick:
